@@ -532,6 +532,21 @@ def forest_self_inverse_family():
                        _model(nodes, [_vi("in_0", F, [2, 2])], [_vi(o, F, [2, 2]) for o in outs]))
 
 
+def addchain_self_inverse_family():
+    """Add chains/forests with a self-inverse Transpose that is both a consumer of a chain value and an input of a later
+    chain member (the Add-chain phase produced wrong values; the standalone add-forest pass raised)"""
+    for tail in ("Add",):
+        for outs in (["y"], ["y", "u"], ["y", "a1"]):
+            nodes = [H.make_node("Transpose", ["in_0"], ["t1"], perm=[1, 0], name="T1"), H.make_node("Transpose", ["in_1"], ["t2"], perm=[1, 0], name="T2"),
+                     H.make_node("Add", ["t1", "t2"], ["a1"], name="A1"), H.make_node("Transpose", ["a1"], ["u"], perm=[1, 0], name="TU"),
+                     H.make_node(tail, ["a1", "u"], ["a2"], name="A2"), H.make_node("Transpose", ["a2"], ["y"], perm=[1, 0], name="TY")]
+            yield (f"M/addchain_self_inverse/{tail}/outs={','.join(outs)}",
+                   _model(nodes, [_vi("in_0", F, [2, 2]), _vi("in_1", F, [2, 2])], [_vi(o, F, [2, 2]) for o in outs]))
+            nodes2 = list(nodes[:4]) + [H.make_node(tail, ["u", "a1"], ["a2"], name="A2"), nodes[5]]
+            yield (f"M/addchain_self_inverse/{tail}/swapped/outs={','.join(outs)}",
+                   _model(nodes2, [_vi("in_0", F, [2, 2]), _vi("in_1", F, [2, 2])], [_vi(o, F, [2, 2]) for o in outs]))
+
+
 def side_rank_family():
     """Reshape -> binary elementwise op with a ONE-ELEMENT constant of rank 0..3 -> Reshape back: folding the pair is only
     right when the constant's rank does not exceed the source rank (numpy broadcasting left-pads otherwise)"""
@@ -549,5 +564,5 @@ def side_rank_family():
 
 
 def all_graphs():
-    for fam in (lookalike_family, side_rank_family, forest_self_inverse_family, misc_family, multi_family, capture_family, table_ops_family, cast_family, reshape_family, transpose_family):
+    for fam in (lookalike_family, side_rank_family, forest_self_inverse_family, addchain_self_inverse_family, misc_family, multi_family, capture_family, table_ops_family, cast_family, reshape_family, transpose_family):
         yield from fam()
